@@ -53,3 +53,45 @@ fn count_positions_matches_the_reference_count_for_every_pool_size() {
         }
     }
 }
+
+/// "any state of the generator's caches": ONE generator counts a chain of related positions - each placement for the
+/// side to move AND for the other side (where that is a consistent position), a position and its successors, the same
+/// position at several depths, in two rounds - and every figure must equal the reference count of a fresh computation
+/// (added after seed r14_C10: a subtree-count memo keyed by position key and depth without the side to move)
+#[test]
+fn one_generator_counts_related_positions_for_both_sides() {
+    let mut roots: Vec<(String, Board)> = vec![
+        ("after 1.Nf3".into(), { let mut b = Board::starting_position(); ChessMove::Standard(chess::chess_move::standard::StandardChessMove::new(G1, F3, None)).apply(&mut b).unwrap(); b }),
+        ("opening 2".into(), opening(2, 6)),
+        ("opening 4".into(), opening(4, 7)),
+        ("KRPkr".into(), setup(&[(E1, Piece::King, Color::White), (A1, Piece::Rook, Color::White), (B7, Piece::Pawn, Color::White),
+            (E8, Piece::King, Color::Black), (H8, Piece::Rook, Color::Black)], Color::White)),
+    ];
+    // successors of the first root, so that positions met inside one count come back as roots of the next
+    let first = roots[0].1.clone();
+    for (i, m) in MoveGenerator::new().generate_moves(&mut first.clone(), Color::Black).iter().take(3).enumerate() {
+        let mut b = first.clone();
+        m.apply(&mut b).unwrap();
+        roots.push((format!("after 1.Nf3 and reply {}", i), b));
+    }
+    let pool = rayon::ThreadPoolBuilder::new().num_threads(4).build().unwrap();
+    let mut reused = MoveGenerator::new();
+    let mut checked = 0;
+    for round in 0..2 {
+        for (name, b0) in roots.iter() {
+            for color in [Color::Black, Color::White] {
+                // skip inconsistent queries: the side NOT to move must not be in check, and a pending en-passant target belongs to the other side
+                let mut probe = b0.clone();
+                if chess::evaluate::player_is_in_check(&mut probe, &mut MoveGenerator::new(), color.opposite()) || !b0.peek_en_passant_target().is_empty() { continue; }
+                for depth in 0u8..=2 {
+                    let expect = reference(&mut b0.clone(), &mut MoveGenerator::new(), color, depth);
+                    let mut b = b0.clone();
+                    let got = pool.install(|| reused.count_positions(depth, &mut b, color));
+                    assert_eq!(got, expect, "{} with {:?} to move, depth {} (round {}, one generator reused): count_positions vs a fresh reference count", name, color, depth, round);
+                    checked += 1;
+                }
+            }
+        }
+    }
+    assert!(checked >= 60, "only {} counts compared (vacuous)", checked);
+}
